@@ -22,6 +22,8 @@
 EXTENDS LockContract
 
 CONSTANTS Readers, Writers, Rounds, Grace, MaxT, AllowShutdown, AllowParentCancel, GraceFromAdmission,
+          NoCtxOnSend,          \* TRUE: defect variant - RLock's first select (handing the request to the 1-slot channel) has no arm for
+                                \* the caller's context: a reader blocked there does not stop waiting when its context ends
           AutoReleaseOnCtxEnd,  \* TRUE: defect variant - a reader is released (wg.Done, entry removed) as soon as its context ends for
                                 \* any reason, e.g. its parent's, although it has not called its release func
           CancelAfterDone,      \* TRUE: defect variant - the grace-cancel first publishes "reader gone" (wg.Done, entry removed) and
@@ -59,17 +61,9 @@ RCancelVars(r) == /\ reg' = reg \ {r}
                   /\ ents' = IF r \in reg \/ DeleteOnEveryRelease THEN [ents EXCEPT ![rid[r]] = 0] ELSE ents
                   /\ UNCHANGED <<rid, nextId>>
 
-Call(g) == /\ pc[g] = "idle" /\ left[g] > 0 /\ pc' = [pc EXCEPT ![g] = "call"]
-           /\ c' = CNext(c, [ev |-> "acq_call", g |-> g, key |-> 0, mode |-> IF g \in Writers THEN "w" ELSE "r", pre |-> FALSE, now |-> now])
-           /\ IF g \in Readers THEN pcancelled' = [pcancelled EXCEPT ![g] = FALSE] /\ told' = [told EXCEPT ![g] = FALSE]
-                                    /\ cause' = [cause EXCEPT ![g] = "none"] /\ UNCHANGED viaSd
-                               ELSE viaSd' = [viaSd EXCEPT ![g] = FALSE] /\ UNCHANGED <<pcancelled, told, cause>>
-           /\ resp' = [resp EXCEPT ![g] = "none"]
-           /\ UNCHANGED <<now, closed, chq, srv, sg, lslot, reg, pcl, ents, rid, nextId, grace, admittedAt, sdheld, left>>
-
 (* RLock, outercancel.go:171-191 *)
 RSelect1(g) == /\ g \in Readers /\ pc[g] = "call"
-               /\ \/ (closed \/ pcancelled[g]) /\ pc' = [pc EXCEPT ![g] = "reterr"] /\ UNCHANGED chq
+               /\ \/ (closed \/ (pcancelled[g] /\ ~NoCtxOnSend)) /\ pc' = [pc EXCEPT ![g] = "reterr"] /\ UNCHANGED chq
                   \/ chq = 0 /\ chq' = g /\ pc' = [pc EXCEPT ![g] = "wait"]
                /\ UNCHANGED <<now, closed, srv, sg, lslot, reg, pcl, ents, rid, nextId, grace, cause, admittedAt, resp, pcancelled, told, sdheld, viaSd, left, c>>
 RSelect2(g) == /\ g \in Readers /\ pc[g] = "wait"
@@ -177,6 +171,19 @@ Shutdown == /\ AllowShutdown /\ ~closed /\ closed' = TRUE /\ c' = CNext(c, [ev |
 ClientRuns == \E g \in G : ENABLED (RSelect1(g) \/ RSelect2(g) \/ WSelect1(g) \/ WSelect2(g) \/ WShutdownLock(g) \/ Ret(g) \/ RetErr(g) \/ RRelease(g) \/ WRelease(g))
 LibRuns == \/ ENABLED (SrvRecv \/ SrvReaderGone \/ SrvAdmitReader \/ SrvWriterSlot \/ SrvWriterGrant \/ SrvExit)
            \/ \E r \in Readers : ENABLED (GraceFire(r) \/ LateCancel(r) \/ AutoRelease(r))
+AtRest == ~ClientRuns /\ ~LibRuns
+(* the harness issues a call; atrest: nothing else was moving (then it comes to rest before the next call is issued) *)
+Call(g) == /\ pc[g] = "idle" /\ left[g] > 0 /\ pc' = [pc EXCEPT ![g] = "call"]
+           /\ c' = CNext(c, [ev |-> "acq_call", g |-> g, key |-> 0, mode |-> IF g \in Writers THEN "w" ELSE "r", pre |-> FALSE, now |-> now, atrest |-> AtRest])
+           /\ IF g \in Readers THEN pcancelled' = [pcancelled EXCEPT ![g] = FALSE] /\ told' = [told EXCEPT ![g] = FALSE]
+                                    /\ cause' = [cause EXCEPT ![g] = "none"] /\ UNCHANGED viaSd
+                               ELSE viaSd' = [viaSd EXCEPT ![g] = FALSE] /\ UNCHANGED <<pcancelled, told, cause>>
+           /\ resp' = [resp EXCEPT ![g] = "none"]
+           /\ UNCHANGED <<now, closed, chq, srv, sg, lslot, reg, pcl, ents, rid, nextId, grace, admittedAt, sdheld, left>>
+
+(* the harness looks at the bubble at rest *)
+Settle == /\ AtRest /\ c' = CNext(c, [ev |-> "settled", now |-> now])
+          /\ UNCHANGED <<now, closed, chq, srv, sg, lslot, reg, pcl, ents, rid, nextId, grace, cause, admittedAt, resp, pcancelled, told, sdheld, viaSd, pc, left>>
 Tick == /\ now < MaxT /\ ~ClientRuns /\ ~LibRuns /\ now' = now + 1 /\ c' = CNext(c, [ev |-> "adv", now |-> now + 1])
         /\ UNCHANGED <<closed, chq, srv, sg, lslot, reg, pcl, ents, rid, nextId, grace, cause, admittedAt, resp, pcancelled, told, sdheld, viaSd, pc, left>>
 
@@ -189,7 +196,7 @@ Stuck == /\ ~ENABLED Progress /\ \A r \in Readers : grace[r] = -1
          /\ \E g \in G : pc[g] \in {"call", "wait", "sd", "unl"} /\ c' = CNext(c, Ev("stuck", g))
          /\ UNCHANGED <<now, closed, chq, srv, sg, lslot, reg, pcl, ents, rid, nextId, grace, cause, admittedAt, resp, pcancelled, told, sdheld, viaSd, pc, left>>
 
-Next == Progress \/ Stuck \/ Shutdown \/ Tick \/ \E r \in Readers : ParentCancel(r)
+Next == Progress \/ Stuck \/ Settle \/ Shutdown \/ Tick \/ \E r \in Readers : ParentCancel(r)
 Spec == Init /\ [][Next]_vars /\ WF_vars(Progress) /\ WF_vars(Tick)
 
 Contract == ~IsBad(c)
